@@ -140,7 +140,15 @@ fn scenario(ctx: &Ctx, out: &mut Outcome, rng: &mut Rng, idx: u64) {
     // a burst of lost compare-and-swap races on the metadata objects (5 = a client's whole retry budget):
     // catalog mutations of the compactor (swap, retention's delete_chunk) fail with retry exhaustion
     let contention: Option<(u64, u64)> = if !local_backend && rng.chance(1, 5) { Some((rng.below(20), *rng.pick(&[5u64, 5, 6, 10]))) } else { None };
+    // 0-1 storage faults at a random request (before / after the request took effect)
+    let faults: Vec<crate::sim::Fault> = if rng.chance(1, 3) {
+        vec![crate::sim::Fault { actor: None, index: rng.below(90), mode: if rng.chance(1, 2) { crate::sim::FaultMode::Before } else { crate::sim::FaultMode::After } }]
+    } else {
+        vec![]
+    };
+    let faults2 = faults.clone();
     let plan_json = json!({"backend": if local_backend {"local"} else {"object-store"}, "retention_days": retention_days, "grace_s": grace_s,
+        "faults": faults.iter().map(|f| format!("#{} {:?}", f.index, f.mode)).collect::<Vec<_>>(),
         "lost_cas_burst": contention.map(|(f, c)| format!("conditional PUTs #{}..#{}", f, f + c)),
         "chunks": plans.iter().map(|p| format!("{} rows={}", p.0, p.1.len())).collect::<Vec<_>>(), "cycles": ncycles, "query_actors": nqueries, "restart": restart, "operator_removes_a_chunk_before_restart_loop": admin_delete});
     let plans2 = plans.clone();
@@ -208,6 +216,8 @@ fn scenario(ctx: &Ctx, out: &mut Outcome, rng: &mut Rng, idx: u64) {
             ctl.set_gate_filter(Some(Arc::new(|p: &crate::sim::ParkedInfo| !p.actor.starts_with("admin"))));
         }
         ctl.set_contention(contention.map(|(from, count)| crate::sim::Contention { path_contains: ".json".into(), from, count }));
+        ctl.reset_counters();
+        ctl.set_faults(faults2);
         ctl.set_gating(true);
         let monitor = Arc::new(ShardMonitor::new(HotShardConfig::default()));
         let comp = Compactor::new(cfg2.clone(), ctl.store("comp"), mk_meta(&ctl, "comp"), storage_config(), monitor.clone()).with_pin_registry(registry.clone());
@@ -349,6 +359,7 @@ fn scenario(ctx: &Ctx, out: &mut Outcome, rng: &mut Rng, idx: u64) {
         }
         ctl.set_gating(false);
         ctl.set_contention(None);
+        ctl.set_faults(vec![]);
         use futures::StreamExt;
         let mut final_objects = BTreeSet::new();
         let mut ls = ctl.backing.list(None);
@@ -414,7 +425,20 @@ fn scenario(ctx: &Ctx, out: &mut Outcome, rng: &mut Rng, idx: u64) {
             );
         }
         if !ever.contains(path) {
-            out.violation("C09/deleted-something-never-in-catalog", path, witness(json!({"path": path})));
+            // A data file that no catalog version ever referenced (the output of a compaction whose swap did
+            // not commit): it has been unreferenced for its whole life, so what the property demands of its
+            // removal is the grace period, counted from its upload, and no pin.
+            let uploaded = res.events.iter().find(|e| e.op == "PUT" && !e.call && e.path == *path && (e.result == "ok" || e.result.starts_with("injected-after(applied"))).map(|e| e.wall_ns);
+            out.count("deletes_of_never_referenced_files", 1);
+            match uploaded {
+                Some(u) if *t - u >= grace_ns => {}
+                Some(u) => out.violation(
+                    "C09/never-referenced-file-deleted-before-grace",
+                    &format!("{} (never in the catalog) was uploaded at {} and deleted {} ms later (grace {} s)", path, u, (*t - u) / 1_000_000, grace_s),
+                    witness(json!({"path": path})),
+                ),
+                None => out.violation("C09/deleted-something-never-in-catalog", &format!("{} was deleted; it was never in the catalog and not uploaded in this history", path), witness(json!({"path": path}))),
+            }
             continue;
         }
         // catalog state at the time of the delete = last version with wall <= t (versions are in commit order)
@@ -460,7 +484,14 @@ fn scenario(ctx: &Ctx, out: &mut Outcome, rng: &mut Rng, idx: u64) {
     }
     out.count("retention_removals_judged", retention_removals);
     // ---- P1: persisted deletions carried out after restart
-    if restart && res.restart_done && res.restart_clock_after_grace {
+    // (only in histories without an injected storage error: the property's quantifier has none, and a DELETE or a
+    //  load of the pending list that the store refuses is not "carried out" by construction; the safety rules
+    //  above are judged with faults all the same)
+    let fault_hit = res.events.iter().any(|e| e.result.starts_with("injected"));
+    if fault_hit {
+        out.count("scenarios_with_an_injected_fault_hit", 1);
+    }
+    if restart && res.restart_done && res.restart_clock_after_grace && !fault_hit {
         for (p, _sched) in &res.persisted_before_restart {
             out.count("persisted_deletions_followed", 1);
             let deleted = res.deletes.iter().any(|d| &d.0 == p) || !res.final_objects.contains(p);
